@@ -27,6 +27,8 @@ import (
 	"github.com/sassoftware/relic/v8/lib/certloader"
 	"github.com/sassoftware/relic/v8/lib/x509tools"
 	"github.com/sassoftware/relic/v8/lib/xmldsig"
+	"github.com/sassoftware/relic/v8/signers"
+	"github.com/sassoftware/relic/v8/signers/vsix"
 	"github.com/sassoftware/relic/v8/verifharness/core"
 )
 
@@ -390,6 +392,17 @@ func stripCR(n *gnode) {
 	}
 }
 
+// stripCdataEnd removes "]]>" from attribute values (Verify re-parses canonical bytes with encoding/xml, which
+// rejects that sequence although canonical XML leaves ">" unescaped in attribute values)
+func stripCdataEnd(n *gnode) {
+	for i := range n.attrs {
+		n.attrs[i].val = strings.ReplaceAll(n.attrs[i].val, "]]>", "]]")
+	}
+	for _, c := range n.ch {
+		stripCdataEnd(c)
+	}
+}
+
 func genManifest(r *core.Rng, i int, withCR bool) string {
 	cfg := &gcfg{wild: false, maxDepth: 3, maxKids: 3, monotone: true}
 	extra := genElem(r, scope{"": "urn:schemas-microsoft-com:asm.v2", "asmv2": "urn:schemas-microsoft-com:asm.v2"}, 1, cfg)
@@ -460,6 +473,46 @@ type sigCase struct {
 	RsaE         int    `json:"rsa_e,omitempty"`
 	LicenseToken string `json:"license_token,omitempty"` // as:assemblyIdentity/@publicKeyToken inside the license
 	C14n         []*c14nCase `json:"c14n,omitempty"`     // canonicalisations of the documents relic built
+	Gen          []*genCase  `json:"gen,omitempty"`      // documents relic built, with the parameters they were built from
+}
+
+// genCase: a SignedInfo (which=0) or a VSIX package Object (which=1) built by relic, the parameters it must be a
+// function of (written down here independently of relic's tables), and the content its DigestValue must digest.
+type genCase struct {
+	Which     int         `json:"which"`
+	RefID     string      `json:"ref_id"`
+	HashAlg   string      `json:"hash_alg"`
+	SigAlg    string      `json:"sig_alg"`
+	C14nAlg   string      `json:"c14n_alg"`
+	Hash      string      `json:"hash"`
+	Tree      interface{} `json:"tree"`
+	RefDoc    string      `json:"ref_doc,omitempty"` // hex: document holding the referenced content
+	RefPath   string      `json:"ref_path,omitempty"`
+	Inclusive bool        `json:"inclusive,omitempty"`
+	Refs      [][2]string `json:"refs,omitempty"` // which=1: (URI, base64 digest) in order
+	NsDigSig  string      `json:"ns_digsig,omitempty"`
+	Fmt       string      `json:"fmt,omitempty"`
+	Time      string      `json:"time,omitempty"`
+}
+
+// algorithm identifiers per XMLDSIG 1.1 / RFC 4051 (standard) and the names ClickOnce uses (ms)
+func algURIs(hash string, ecdsa, ms bool) (string, string) {
+	const ds, more, enc = "http://www.w3.org/2000/09/xmldsig#", "http://www.w3.org/2001/04/xmldsig-more#", "http://www.w3.org/2001/04/xmlenc#"
+	std := map[string]string{"sha1": ds + "sha1", "sha256": enc + "sha256", "sha384": more + "sha384", "sha512": enc + "sha512"}
+	hashAlg := std[hash]
+	if ms {
+		hashAlg = ds + hash
+	}
+	var sigAlg string
+	switch {
+	case ecdsa:
+		sigAlg = more + "ecdsa-" + hash
+	case hash == "sha1" || ms:
+		sigAlg = ds + "rsa-" + hash
+	default:
+		sigAlg = more + "rsa-" + hash
+	}
+	return hashAlg, sigAlg
 }
 
 func sigLens(root *gnode) []int {
@@ -584,7 +637,22 @@ func runSig(c *core.Ctx) error {
 			vfy := func(doc []byte) error { _, err := appmanifest.Verify(doc); return err }
 			sc.Variants = variants(r, root, nvar, covered, vfy)
 			// canonical forms of what relic built, for comparison with the reference canonicaliser
-			sc.C14n = append(sc.C14n, runOne(0, "relicdoc:manifest-signedinfo", string(signed.Signed), pathOf(root, "Signature", "SignedInfo")))
+			si := runOne(0, "relicdoc:manifest-signedinfo", string(signed.Signed), pathOf(root, "Signature", "SignedInfo"))
+			sc.C14n = append(sc.C14n, si)
+			{
+				hashAlg, sigAlg := algURIs(h.name, k.bits != 0, true)
+				unsignedRoot := cloneTree(root)
+				var ch []*gnode
+				for _, x := range unsignedRoot.ch {
+					if !(x.kind == 0 && x.local == "Signature") {
+						ch = append(ch, x)
+					}
+				}
+				unsignedRoot.ch = ch
+				plain := &style{r: &core.Rng{S: 1}, noCharRefs: true}
+				sc.Gen = append(sc.Gen, &genCase{Which: 0, RefID: "", HashAlg: hashAlg, SigAlg: sigAlg, C14nAlg: "http://www.w3.org/2001/10/xml-exc-c14n#",
+					Hash: h.name, Tree: si.Tree, RefDoc: hx(plain.document(unsignedRoot)), RefPath: "-"})
+			}
 			c.Emit(sc)
 
 			// ---------------- enveloping signature over an Object (VSIX style: REC c14n URI, standard hash names)
@@ -593,6 +661,10 @@ func runSig(c *core.Ctx) error {
 			cfg := &gcfg{wild: false, maxDepth: 3, maxKids: 3, monotone: true}
 			body := genElem(r, scope{"": xmldsig.NsXMLDsig}, 1, cfg)
 			stripCR(body)
+			stripCdataEnd(body)
+			if round == 1 && k.bits == 256 { // one case per run: attribute value holding "]]>" inside the Signature element
+				body.attrs = append(body.attrs, gattr{"", "verifCdataEnd", "a]]>b"})
+			}
 			obj := etree.NewElement("Object")
 			obj.CreateAttr("Id", "idPackageObject")
 			obj.AddChild(toEtree(body))
@@ -634,8 +706,13 @@ func runSig(c *core.Ctx) error {
 			// the REC URI written into CanonicalizationMethod names inclusive Canonical XML 1.0
 			ci := runOne(0, "recdoc:signedinfo", string(blob), "0")
 			ci.Inc = true
-			co := runOne(0, "recdoc:object", string(blob), pathOf(root2, "Object"))
-			co.Inc = true
+			co := runOne(0, "relicdoc:enveloping-object", string(blob), pathOf(root2, "Object"))
+			{
+				hashAlg, sigAlg := algURIs(h.name, k.bits != 0, false)
+				se.Gen = append(se.Gen, &genCase{Which: 0, RefID: "idPackageObject", HashAlg: hashAlg, SigAlg: sigAlg,
+					C14nAlg: "http://www.w3.org/TR/2001/REC-xml-c14n-20010315", Hash: h.name, Tree: ci.Tree,
+					RefDoc: hx(string(blob)), RefPath: pathOf(root2, "Object")})
+			}
 			// the same document with an unused namespace declaration added to Signature (a re-serialisation the
 			// property allows): relic still accepts it, inclusive c14n of SignedInfo changes
 			withNs := strings.Replace(string(blob), "<Signature ", `<Signature xmlns:unused="urn:unused" `, 1)
@@ -646,9 +723,72 @@ func runSig(c *core.Ctx) error {
 			}
 			se.C14n = append(se.C14n, ci, co, cu)
 			c.Emit(se)
+
+			// ---------------- the real VSIX package signature (signers/vsix makeSignature through the verif hook)
+			sv := &sigCase{ID: id, Kind: "vsix", Key: k.name, Bits: k.bits, Hash: h.name}
+			id++
+			digests := map[string][]byte{}
+			var refs [][2]string
+			names := []string{"extension.vsixmanifest", "content/a b.dll", "x/é.json", "_rels/.rels", "lib/z&1.txt"}[:2+r.Intn(4)]
+			hashAlg, sigAlg := algURIs(h.name, k.bits != 0, false)
+			for _, nm := range names {
+				d := h.h.New()
+				d.Write([]byte(nm))
+				digests[nm] = d.Sum(nil)
+			}
+			sorted := append([]string{}, names...)
+			sortStrings(sorted)
+			for _, nm := range sorted { // OPC: parts without an entry in [Content_Types].xml get the default content type
+				ctype := "application/octet-stream"
+				if strings.HasSuffix(nm, ".rels") {
+					ctype = "application/vnd.openxmlformats-package.relationships+xml"
+				}
+				refs = append(refs, [2]string{"/" + nm + "?ContentType=" + ctype, base64.StdEncoding.EncodeToString(digests[nm])})
+			}
+			when := time.Unix(1750000000+int64(id), 0).UTC()
+			vblob, err := vsix.VerifMakeSignature(digests, k.cert, signers.SignOpts{Hash: h.h, Time: when}, false)
+			if err != nil {
+				sv.Err = err.Error()
+				c.Emit(sv)
+				continue
+			}
+			sv.Signed = hex.EncodeToString(vblob)
+			verr = vfy2(vblob)
+			sv.VerifyOK = verr == nil
+			if verr != nil {
+				sv.VerifyErr = verr.Error()
+			}
+			root3, perr := parseDoc(vblob)
+			if perr != nil {
+				sv.Err = "reparse: " + perr.Error()
+				c.Emit(sv)
+				continue
+			}
+			sv.SigLens = sigLens(root3)
+			sv.Variants = variants(r, root3, nvar, covered2, vfy2)
+			vi := runOne(0, "recdoc:vsix-signedinfo", string(vblob), "0")
+			vi.Inc = true
+			vo := runOne(0, "recdoc:vsix-object", string(vblob), pathOf(root3, "Object"))
+			vo.Inc = true
+			vox := runOne(0, "relicdoc:vsix-object", string(vblob), pathOf(root3, "Object"))
+			sv.C14n = append(sv.C14n, vi, vo, vox)
+			ns, fmtXML, fmtGo := vsix.VerifSignatureConsts()
+			sv.Gen = append(sv.Gen,
+				&genCase{Which: 0, RefID: "idPackageObject", HashAlg: hashAlg, SigAlg: sigAlg, C14nAlg: "http://www.w3.org/TR/2001/REC-xml-c14n-20010315",
+					Hash: h.name, Tree: vi.Tree, RefDoc: hx(string(vblob)), RefPath: pathOf(root3, "Object"), Inclusive: true},
+				&genCase{Which: 1, HashAlg: hashAlg, Hash: h.name, Tree: vo.Tree, Refs: refs, NsDigSig: ns, Fmt: fmtXML, Time: when.Format(fmtGo)})
+			c.Emit(sv)
 		}
 	}
 	return nil
+}
+
+func sortStrings(xs []string) {
+	for i := 1; i < len(xs); i++ {
+		for j := i; j > 0 && xs[j] < xs[j-1]; j-- {
+			xs[j], xs[j-1] = xs[j-1], xs[j]
+		}
+	}
 }
 
 // pathOf: child-element index path following local names from the root
